@@ -7,9 +7,13 @@
 //!     the verifier (it delegates the verdict to the real verifiers, or is forced to fail).
 //! (b) the REAL verifiers: every baseline token verifies and returns the signed payload; every single-bit flip of
 //!     every byte of the protected segment, the payload (attached or detached) and the signature segment — for the
-//!     compact serialization of the whole token — must fail. Thorough adds every byte substitution from a
-//!     47+-character alphabet (EdDSA tokens) and the same sweep through `CoreDocument::verify_jws`.
-//! (c) the concrete verifiers called directly: alg x key shape x signature shape table.
+//!     compact serialization of the whole token — must fail. Thorough adds every byte substitution (all 255 other
+//!     values for the EdDSA tokens in the plain spelling, a 50-character structural alphabet for the ECDSA ones; quick:
+//!     the structural alphabet on a 24-token subset) and the same sweep through `CoreDocument::verify_jws`. Tokens
+//!     outside the demanded family that the library verifies (payloads needing JSON escapes, RFC 7797-restricted
+//!     compact payloads) are swept as well.
+//! (c) the concrete verifiers (`EdDSAJwsVerifier`, `EcDSAJwsVerifier`) called directly, each with EVERY algorithm of the
+//!     table (also the ones the other verifier is responsible for): verifier x alg x key shape x signature shape.
 //! (d) payload sources {embedded only, detached only} are the attached/detached dimension of (a),(b); here BOTH (the
 //!     token carries a non-empty payload Pe and the caller supplies a detached payload Pd, signature valid over h.Pd or
 //!     over h.Pe) and NEITHER, for the three serializations and CoreDocument::verify_jws. BOTH with Pd != Pe must never
@@ -17,11 +21,13 @@
 //!     NEITHER are recorded only. (b) additionally re-submits every verifying detached-payload baseline token with an
 //!     embedded payload added.
 //!
-//! Oracle: safety direction strict on every row (reported verified ⇒ the verifier was called exactly once with
+//! Oracle: safety direction strict on every row (reported verified ⇒ the verifier was called, every call carried
 //! the received bytes / protected alg / received signature / caller's key and said Ok, key.alg ∈ {absent, alg},
-//! claims = signed payload). Acceptance is demanded only for the baseline family (alg in the protected header,
-//! right signer, pin absent or equal, payload expressible without JSON escaping / outside RFC 7797's compact
-//! restrictions); rows outside it are executed and recorded only.
+//! claims = signed payload, decoded according to the PROTECTED header's b64 whatever the unprotected one says). How
+//! often the verifier is called and how many items a decoder hands out are recorded, not judged. Acceptance is
+//! demanded only for the baseline family (alg in the protected header, right signer, pin absent or equal, payload
+//! expressible without JSON escaping / outside RFC 7797's compact restrictions); rows outside it are executed and
+//! recorded only.
 
 use identity_core::convert::FromJson;
 use identity_document::document::CoreDocument;
@@ -77,12 +83,15 @@ struct Tok {
   /// protected-header byte spelling: 0 plain, 1 inner whitespace, 2 members reordered (+kid), 3 extra unknown member
   sp: u8,
   /// alg placement: 0 protected, 1 not in the protected header (JSON: unprotected only), 2 unprotected only and no
-  /// protected header at all, 3 protected and unprotected
+  /// protected header at all, 3 protected and unprotected (same value), 4 protected and a DIFFERENT alg in the
+  /// unprotected header, 5 alg protected and the unprotected header carries a `b64` member that contradicts the
+  /// protected header's (effective) b64
   ap: u8,
   alg: u8,
 }
-/// The last one is itself valid base64url text: with b64=false the claims must be it, not its decoding.
-const PAYLOADS: [&[u8]; 6] = [b"a", b"{\"x\":1}", b"a.b", &[0xff, 0x00], b"~-_", b"aGk"];
+/// #5 is itself valid base64url text: with b64=false the claims must be it, not its decoding. #6 needs every kind of
+/// JSON escape (quote, backslash, control character) and carries a non-ASCII character.
+const PAYLOADS: [&[u8]; 7] = [b"a", b"{\"x\":1}", b"a.b", &[0xff, 0x00], b"~-_", b"aGk", b"q\"\\\n\xc3\xa9"];
 const SER: [&str; 4] = [
   "Decoder::decode_compact_serialization",
   "Decoder::decode_flattened_serialization",
@@ -230,14 +239,14 @@ fn build_ov(t: &Tok, other_signer: bool, kid: Option<&str>, ov: Option<&Ov>) -> 
   for i in 0..nsig {
     let alg = (t.alg + i as u8) % 3;
     let (ap, sp) = if i == 0 { (t.ap, t.sp) } else { (0, (t.sp + 1) % 4) };
-    let prot_alg = ap == 0 || ap == 3;
+    let prot_alg = matches!(ap, 0 | 3 | 4 | 5);
     let seg = if ap == 2 { None } else { Some(b64(prot_text(prot_alg.then_some(ALG[alg as usize]), t.b64, sp, kid))) };
-    let unprot = if ap != 0 {
-      json_ser.then(|| format!("{{\"alg\":\"{}\"}}", ALG[alg as usize]))
-    } else if sp == 3 && json_ser {
-      Some("{\"typ\":\"JWT\"}".to_string())
-    } else {
-      None
+    let unprot = match ap {
+      0 => (sp == 3 && json_ser).then(|| "{\"typ\":\"JWT\"}".to_string()),
+      1..=3 => json_ser.then(|| format!("{{\"alg\":\"{}\"}}", ALG[alg as usize])),
+      4 => Some(format!("{{\"alg\":\"{}\"}}", ALG[((alg + 1) % 3) as usize])),
+      // an unprotected b64 that contradicts the protected one: the payload interpretation must not follow it
+      _ => Some(format!("{{\"b64\":{}}}", t.b64 == 2)),
     };
     let mut input = seg.clone().unwrap_or_default().into_bytes();
     input.push(b'.');
@@ -326,17 +335,30 @@ impl JwsVerifier for Recorder {
 // ------------------------------------------------------------------ cases
 #[derive(Serialize, Deserialize, Debug, Clone, PartialEq)]
 enum Case {
-  /// (a) pin: 0 key.alg absent, 1 equal, 2 different
+  /// (a) pin: 0 key.alg absent, 1 equal, 2.. different (see PINS)
   Rec { t: Tok, pin: u8, other_signer: bool, force_err: bool },
   /// (b) one mutation of a baseline token. region: 0 whole compact token, 1 protected segment, 2 attached payload,
   /// 3 signature segment, 4 detached payload. `xor` != 0: flip those bits; else replace the byte by `with`.
   Mut { t: Tok, region: u8, sig: u8, byte: u32, xor: u8, with: u8 },
   /// (b) baseline only (no mutation)
   Base { t: Tok },
-  /// through CoreDocument::verify_jws; pin_other: the method's JWK pins a different alg
-  Doc { t: Tok, pin_other: bool, m: Option<(u8, u32, u8, u8)> },
-  /// (c) concrete verifier table
-  Ver { alg: u8, key: u8, sig: u8 },
+  /// through CoreDocument::verify_jws; pin_other: the method's JWK pins a different alg; other_method: the token names
+  /// method #k-<alg> in its kid but is signed with the key of method #k2-<alg> of the same document
+  Doc {
+    t: Tok,
+    pin_other: bool,
+    m: Option<(u8, u32, u8, u8)>,
+    #[serde(default)]
+    other_method: bool,
+  },
+  /// (c) concrete verifier table; via 0: the verifier responsible for alg, 1: the other library verifier
+  Ver {
+    alg: u8,
+    key: u8,
+    sig: u8,
+    #[serde(default)]
+    via: u8,
+  },
   /// (d) payload sources. `t.pl` = Pe. src 2: BOTH (token carries Pe, caller supplies Pd); 3: NEITHER.
   /// over 0: signature over h.Pd; 1: over h.Pe. doc: through CoreDocument::verify_jws (compact).
   Src { t: Tok, src: u8, pd: u8, over: u8, doc: bool },
@@ -392,10 +414,16 @@ fn pinned(alg: u8, pin: u8) -> Jwk {
   match pin {
     1 => k.set_alg(ALG[alg as usize]),
     2 => k.set_alg(ALG[((alg + 1) % 3) as usize]),
+    3 => k.set_alg(ALG[((alg + 2) % 3) as usize]),
+    4 => k.set_alg(ALG[alg as usize].to_ascii_lowercase()),
+    5 => k.set_alg(""),
     _ => {}
   }
   k
 }
+/// key.alg pins: 0 absent, 1 equal to the header's alg, 2/3 the two other algorithms of the table (so that both
+/// "ES256 pinned, ES256K in the header" and the converse occur), 4 the header's alg in lower case, 5 the empty string.
+const PINS: u8 = 6;
 
 fn eval_rec(ctx: &Ctx, acc: &mut Acc, case: &Case, t: &Tok, pin: u8, other_signer: bool, force_err: bool) {
   let Some(b) = build(t, other_signer, None) else {
@@ -419,10 +447,12 @@ fn eval_rec(ctx: &Ctx, acc: &mut Acc, case: &Case, t: &Tok, pin: u8, other_signe
         Ok(i) => i,
       };
       if items.len() != b.sigs.len() {
-        v.push((format!("{ep}|item-count-differs-from-signature-count"), format!("{} items", items.len())));
-        return (v, labels);
+        // how many items a decoder hands out is not fixed by the property: recorded; every item is judged against
+        // the signature entry it carries
+        labels.push("rec:item-count-differs-from-signature-count".into());
       }
-      for (item, s) in items.into_iter().zip(&b.sigs) {
+      let mut verified_sigs = vec![false; b.sigs.len()];
+      for (pos, item) in items.into_iter().enumerate() {
         let item = match item {
           Err(e) => {
             labels.push(format!("rec:decode-rejected:{}", err_label(&e)));
@@ -433,6 +463,9 @@ fn eval_rec(ctx: &Ctx, acc: &mut Acc, case: &Case, t: &Tok, pin: u8, other_signe
           }
           Ok(i) => i,
         };
+        // the signature entry this item belongs to: the one whose signature it carries, else the one at its position
+        let idx = b.sigs.iter().position(|s| s.sig_bytes[..] == *item.decoded_signature()).unwrap_or(pos.min(b.sigs.len() - 1));
+        let s = &b.sigs[idx];
         // what the item exposes before verification
         if item.signing_input() != &s.signing_input[..] {
           v.push(("JwsValidationItem::signing_input|differs-from-received-bytes".into(), format!("got {:?}", String::from_utf8_lossy(item.signing_input()))));
@@ -452,7 +485,7 @@ fn eval_rec(ctx: &Ctx, acc: &mut Acc, case: &Case, t: &Tok, pin: u8, other_signe
         let res = item.verify(&rec, &key);
         let calls = rec.calls.into_inner();
         if calls.len() > 1 {
-          v.push(("JwsValidationItem::verify|verifier-called-more-than-once".into(), format!("{} calls", calls.len())));
+          labels.push("rec:verifier-called-more-than-once".into()); // not forbidden: every call is judged
         }
         for c in &calls {
           if !s.prot_alg {
@@ -473,11 +506,13 @@ fn eval_rec(ctx: &Ctx, acc: &mut Acc, case: &Case, t: &Tok, pin: u8, other_signe
         match res {
           Ok(d) => {
             labels.push("rec:verified".into());
-            if !(calls.len() == 1 && calls[0].said_ok) {
+            verified_sigs[idx] = true;
+            if calls.is_empty() || calls.iter().any(|c| !c.said_ok) {
               v.push(("JwsValidationItem::verify|reported-verified-without-a-successful-check".into(), format!("{} verifier calls", calls.len())));
             }
-            if pin == 2 {
-              v.push(("JwsValidationItem::verify|key-alg-differs-from-header-alg|accepted".into(), String::new()));
+            // judged on what the key reports as its pin (a Jwk that normalises a meaningless value away pins nothing)
+            if pin >= 2 && key.alg().is_some_and(|a| a != ALG[s.alg as usize]) {
+              v.push(("JwsValidationItem::verify|key-alg-differs-from-header-alg|accepted".into(), format!("key.alg = {:?}", key.alg())));
             }
             if !s.prot_alg {
               v.push(("JwsValidationItem::verify|no-alg-in-protected-header|accepted".into(), String::new()));
@@ -499,6 +534,10 @@ fn eval_rec(ctx: &Ctx, acc: &mut Acc, case: &Case, t: &Tok, pin: u8, other_signe
             }
           }
         }
+      }
+      // (a rejected item of a demanded row has already been reported above)
+      if demanded && v.is_empty() && !verified_sigs.iter().all(|x| *x) {
+        v.push((format!("{ep}+verify|well-formed-token|rejected"), "a signature entry of the baseline token produced no verified item".into()));
       }
       (v, labels)
     })
@@ -549,20 +588,31 @@ fn check_baseline(ctx: &Ctx, acc: &mut Acc, case: &Case, t: &Tok, b: &Built) -> 
       false
     }
     Ok(Err(l)) => {
-      ctx.violation(&format!("{ep}+verify|well-formed-token|rejected"), &format!("baseline token rejected with the real verifiers: {l}"), case);
+      if b.clean {
+        ctx.violation(&format!("{ep}+verify|well-formed-token|rejected"), &format!("baseline token rejected with the real verifiers: {l}"), case);
+      } else {
+        acc.out(format!("base:open-row:not-verified:{l}"));
+      }
       false
     }
     Ok(Ok(items)) => {
       let mut ok = items.len() == b.sigs.len();
+      if !ok {
+        acc.out("base:item-count-differs-from-signature-count(not-swept)");
+      }
       for it in &items {
         match it {
-          Ok(c) if *c == b.claims => acc.out("base:verified"),
+          Ok(c) if *c == b.claims => acc.out(if b.clean { "base:verified" } else { "base:open-row:verified" }),
           Ok(c) => {
             ctx.violation("DecodedJws::claims|differ-from-signed-payload", &format!("got {:?}", String::from_utf8_lossy(c)), case);
             ok = false;
           }
           Err(l) => {
-            ctx.violation(&format!("{ep}+verify|well-formed-token|rejected"), &format!("baseline token rejected with the real verifiers: {l}"), case);
+            if b.clean {
+              ctx.violation(&format!("{ep}+verify|well-formed-token|rejected"), &format!("baseline token rejected with the real verifiers: {l}"), case);
+            } else {
+              acc.out(format!("base:open-row:not-verified:{l}"));
+            }
             ok = false;
           }
         }
@@ -642,14 +692,15 @@ fn eval_mut(ctx: &Ctx, acc: &mut Acc, case: &Case, t: &Tok, b: &Built, region: u
   }
 }
 
+/// Byte-substitution alphabets: the structural characters of the formats, and every byte value.
 const SUBST: &[u8] = b"ABCDEFGHIJKLMNOPQRSTUVWXYZabcdefghijklmnopqrstuvwxyz0123456789-_.=+/\"\\ ~\x00\x7f\xff";
+static ALL_BYTES: Lazy<Vec<u8>> = Lazy::new(|| (0..=255u8).collect());
 
 /// All mutations of one baseline token. Returns the number of mutated tokens evaluated.
-fn sweep(ctx: &Ctx, acc: &mut Acc, t: &Tok, subst: bool) -> u64 {
+fn sweep(ctx: &Ctx, acc: &mut Acc, t: &Tok, subst: &[u8]) -> u64 {
   let Some(b) = build(t, false, None) else { return 0 };
-  if !b.clean {
-    return 0;
-  }
+  // rows outside the family whose acceptance is demanded (payload needing JSON escapes, RFC 7797-restricted compact
+  // payloads) are swept as well whenever the library verifies them
   acc.evals += 1;
   if !check_baseline(ctx, acc, &Case::Base { t: t.clone() }, t, &b) {
     return 1;
@@ -662,8 +713,8 @@ fn sweep(ctx: &Ctx, acc: &mut Acc, t: &Tok, subst: bool) -> u64 {
         let c = Case::Mut { t: t.clone(), region, sig, byte: byte as u32, xor: 1 << bit, with: 0 };
         eval_mut(ctx, acc, &c, t, &b, region, sig, byte, 1 << bit, 0);
       }
-      if subst {
-        for &w in SUBST {
+      {
+        for &w in subst {
           let c = Case::Mut { t: t.clone(), region, sig, byte: byte as u32, xor: 0, with: w };
           eval_mut(ctx, acc, &c, t, &b, region, sig, byte, 0, w);
         }
@@ -688,23 +739,25 @@ fn kid_of(alg: u8) -> String {
   format!("{DID}#k-{}", ALG[alg as usize])
 }
 fn document(pin_other: bool) -> CoreDocument {
-  let methods: Vec<serde_json::Value> = (0..3u8)
-    .map(|a| {
-      let mut k = public(a, 0);
+  let methods: Vec<serde_json::Value> = (0..6u8)
+    .map(|i| {
+      let (a, which) = (i % 3, (i / 3) as usize);
+      let mut k = public(a, which);
       if pin_other {
         k.set_alg(ALG[((a + 1) % 3) as usize]);
       }
-      json!({"id": kid_of(a), "controller": DID, "type": "JsonWebKey2020", "publicKeyJwk": k})
+      let id = if which == 0 { kid_of(a) } else { format!("{DID}#k2-{}", ALG[a as usize]) };
+      json!({"id": id, "controller": DID, "type": "JsonWebKey2020", "publicKeyJwk": k})
     })
     .collect();
   CoreDocument::from_json_value(json!({"id": DID, "verificationMethod": methods})).expect("harness document")
 }
 static DOCS: Lazy<[CoreDocument; 2]> = Lazy::new(|| [document(false), document(true)]);
 
-fn eval_doc(ctx: &Ctx, acc: &mut Acc, case: &Case, t: &Tok, pin_other: bool, m: Option<(u8, u32, u8, u8)>) {
+fn eval_doc(ctx: &Ctx, acc: &mut Acc, case: &Case, t: &Tok, pin_other: bool, m: Option<(u8, u32, u8, u8)>, other_method: bool) {
   acc.evals += 1;
   let kid = kid_of(t.alg);
-  let Some(b) = build(t, false, Some(&kid)) else {
+  let Some(b) = build(t, other_method, Some(&kid)) else {
     acc.out("doc:row-not-expressible");
     return;
   };
@@ -729,6 +782,9 @@ fn eval_doc(ctx: &Ctx, acc: &mut Acc, case: &Case, t: &Tok, pin_other: bool, m: 
       if pin_other {
         ctx.violation(&format!("{ep}|key-alg-differs-from-header-alg|accepted"), "", case);
       }
+      if other_method {
+        ctx.violation(&format!("{ep}|signature-by-the-key-of-another-method|accepted"), "the kid names one method of the document, the signature is by the key of another one", case);
+      }
       if let Some((region, byte, xor, _)) = m {
         let kind = if xor != 0 { "single-bit-flip" } else { "byte-substitution" };
         ctx.violation(&format!("{ep}|{kind}-in-{}|still-verifies", REGION[region as usize]), &format!("byte {byte} changed, still verifies"), case);
@@ -736,12 +792,12 @@ fn eval_doc(ctx: &Ctx, acc: &mut Acc, case: &Case, t: &Tok, pin_other: bool, m: 
       if claims != b.claims {
         ctx.violation(&format!("{ep}|claims-differ-from-signed-payload"), &format!("got {:?}", String::from_utf8_lossy(&claims)), case);
       }
-      acc.distinct.push(Ctx::hash_of(&(3u8, t, pin_other)));
+      acc.distinct.push(Ctx::hash_of(&(3u8, t, pin_other, other_method)));
     }
     Ok(Err(e)) => {
       let l: String = format!("{e}").chars().take(40).collect();
       acc.out(format!("doc:fails:{l}"));
-      if m.is_none() && !pin_other && b.clean {
+      if m.is_none() && !pin_other && !other_method && b.clean {
         ctx.violation(&format!("{ep}|well-formed-token|rejected"), &format!("{e:?}"), case);
       }
     }
@@ -817,7 +873,8 @@ fn eval_src(ctx: &Ctx, acc: &mut Acc, case: &Case, t: &Tok, src: u8, pd: u8, ove
 
 // ------------------------------------------------------------------ (c) verifier table
 const VMSG: &[u8] = b"eyJhbGciOiJFZERTQSJ9.aGk";
-const VKEYS: [&str; 11] = [
+const VMSG2: &[u8] = b"eyJhbGciOiJFZERTQSJ9.aGl";
+const VKEYS: [&str; 13] = [
   "ed25519",
   "p256",
   "k256",
@@ -829,10 +886,40 @@ const VKEYS: [&str; 11] = [
   "ed25519-other",
   "k256-x-31-bytes",
   "p256-y-33-bytes",
+  "p256-other",
+  "k256-other",
 ];
-const VSIGS: [&str; 10] =
-  ["valid-ed", "valid-p256", "valid-k256", "ed-truncated", "ed-plus-one-byte", "p256-truncated", "k256-plus-one-byte", "empty", "64-zero-bytes", "ed-over-other-message"];
-const VALGS: [&str; 5] = ["EdDSA", "ES256", "ES256K", "ES384", "HS256"];
+const VSIGS: [&str; 18] = [
+  "valid-ed",
+  "valid-p256",
+  "valid-k256",
+  "ed-truncated",
+  "ed-plus-one-byte",
+  "p256-truncated",
+  "k256-plus-one-byte",
+  "empty",
+  "64-zero-bytes",
+  "ed-over-other-message",
+  "p256-plus-one-byte",
+  "k256-truncated",
+  "p256-over-other-message",
+  "k256-over-other-message",
+  "p256-r-and-s-swapped",
+  "k256-r-and-s-swapped",
+  "p256-s-negated",
+  "k256-s-negated",
+];
+const VALGS: [&str; 8] = ["EdDSA", "ES256", "ES256K", "ES384", "HS256", "none", "RS256", "ES512"];
+const VALG: [JwsAlgorithm; 8] = [
+  JwsAlgorithm::EdDSA,
+  JwsAlgorithm::ES256,
+  JwsAlgorithm::ES256K,
+  JwsAlgorithm::ES384,
+  JwsAlgorithm::HS256,
+  JwsAlgorithm::NONE,
+  JwsAlgorithm::RS256,
+  JwsAlgorithm::ES512,
+];
 
 fn vkey(k: u8) -> Jwk {
   use identity_jose::jwk::JwkParams;
@@ -888,7 +975,7 @@ fn vkey(k: u8) -> Jwk {
       }
       j
     }
-    _ => {
+    10 => {
       let mut j = public(1, 0);
       if let JwkParams::Ec(p) = j.params_mut() {
         let mut bytes = identity_jose::jwu::decode_b64(&p.y).unwrap();
@@ -897,9 +984,15 @@ fn vkey(k: u8) -> Jwk {
       }
       j
     }
+    11 => public(1, 1),
+    _ => public(2, 1),
   }
 }
 fn vsig(s: u8) -> Vec<u8> {
+  let swapped = |mut v: Vec<u8>| -> Vec<u8> {
+    v.rotate_left(32);
+    v
+  };
   match s {
     0 => sign(0, 0, VMSG),
     1 => sign(1, 0, VMSG),
@@ -926,32 +1019,72 @@ fn vsig(s: u8) -> Vec<u8> {
     }
     7 => Vec::new(),
     8 => vec![0; 64],
-    _ => sign(0, 0, b"eyJhbGciOiJFZERTQSJ9.aGl"),
+    9 => sign(0, 0, VMSG2),
+    10 => {
+      let mut v = sign(1, 0, VMSG);
+      v.push(0);
+      v
+    }
+    11 => {
+      let mut v = sign(2, 0, VMSG);
+      v.pop();
+      v
+    }
+    12 => sign(1, 0, VMSG2),
+    13 => sign(2, 0, VMSG2),
+    14 => swapped(sign(1, 0, VMSG)),
+    15 => swapped(sign(2, 0, VMSG)),
+    // (r, n - s): the other ECDSA signature of the same message by the same key
+    16 => {
+      let sig = p256::ecdsa::Signature::from_slice(&sign(1, 0, VMSG)).expect("harness p256 signature");
+      let (r, s) = sig.split_scalars();
+      p256::ecdsa::Signature::from_scalars(r, -*s).expect("harness p256 twin").to_bytes().to_vec()
+    }
+    _ => {
+      let sig = k256::ecdsa::Signature::from_slice(&sign(2, 0, VMSG)).expect("harness k256 signature");
+      let (r, s) = sig.split_scalars();
+      k256::ecdsa::Signature::from_scalars(r, -*s).expect("harness k256 twin").to_bytes().to_vec()
+    }
   }
 }
-fn eval_ver(ctx: &Ctx, acc: &mut Acc, case: &Case, alg: u8, key: u8, sig: u8) {
+/// `via` 0: the library verifier that is responsible for `alg` (EdDSA -> EdDSAJwsVerifier, ES256/ES256K ->
+/// EcDSAJwsVerifier; for the algorithms neither supports: EdDSAJwsVerifier); 1: the other one.
+fn eval_ver(ctx: &Ctx, acc: &mut Acc, case: &Case, alg: u8, key: u8, sig: u8, via: u8) {
   acc.evals += 1;
-  let a = [JwsAlgorithm::EdDSA, JwsAlgorithm::ES256, JwsAlgorithm::ES256K, JwsAlgorithm::ES384, JwsAlgorithm::HS256][alg as usize];
+  let a = VALG[alg as usize];
   let k = vkey(key);
   let input = VerificationInput { alg: a, signing_input: VMSG.to_vec().into(), decoded_signature: vsig(sig).into() };
-  let who = match alg {
-    0 => "EdDSAJwsVerifier::verify",
-    1 => "EcDSAJwsVerifier::verify[ES256]",
-    2 => "EcDSAJwsVerifier::verify[ES256K]",
-    _ => "RealVerifier::verify[unsupported-alg]",
+  let ed_verifier = matches!(alg, 1 | 2) == (via == 1);
+  let who = match (ed_verifier, alg) {
+    (true, 0) => "EdDSAJwsVerifier::verify",
+    (true, _) => "EdDSAJwsVerifier::verify[alg-is-not-EdDSA]",
+    (false, 1) => "EcDSAJwsVerifier::verify[ES256]",
+    (false, 2) => "EcDSAJwsVerifier::verify[ES256K]",
+    (false, _) => "EcDSAJwsVerifier::verify[alg-is-neither-ES256-nor-ES256K]",
   };
-  // the (alg, key, signature) triples that are a genuine signature by that very key over the message
+  // the (verifier, alg, key, signature) rows that are a genuine signature by that very key over the message under
+  // the algorithm handed to the verifier responsible for it
+  // (acceptance is demanded from the responsible verifier only; should the other one accept such a row, it is right)
   let genuine = matches!((alg, key, sig), (0, 0, 0) | (1, 1, 1) | (2, 2, 2));
-  // key material is genuine for the alg but carries another curve label, or a coordinate with trailing bytes
-  // (the statement is about tokens, not about malformed caller keys): recorded, not judged
-  let mislabelled = matches!((alg, key, sig), (1, 6, 1) | (2, 7, 2) | (1, 10, 1));
-  match guard(|| RealVerifier.verify(input, &k)) {
+  // open rows (recorded, not judged): key material genuine for the alg but carrying another curve label or a
+  // coordinate with trailing bytes (the statement is about tokens, not about malformed caller keys); the (r, n-s) twin
+  // of a genuine ECDSA signature (mathematically a signature of the same message by the same key; whether a
+  // verifier insists on one of the two forms is not the property's business)
+  let open = matches!((alg, key, sig), (1, 6, 1) | (2, 7, 2) | (1, 10, 1) | (1, 1, 16) | (2, 2, 17) | (1, 6, 16) | (2, 7, 17) | (1, 10, 16));
+  let res = guard(|| {
+    if ed_verifier {
+      identity_eddsa_verifier::EdDSAJwsVerifier::default().verify(input, &k)
+    } else {
+      identity_ecdsa_verifier::EcDSAJwsVerifier::default().verify(input, &k)
+    }
+  });
+  match res {
     Err(p) => ctx.violation(&format!("{who}|{}", p.key()), &p.msg, case),
     Ok(Ok(())) => {
       if genuine {
-        acc.out("ver:accepted-genuine");
-      } else if mislabelled {
-        acc.out(format!("ver:open:accepted:{}", VKEYS[key as usize]));
+        acc.out(if via == 0 { "ver:accepted-genuine" } else { "ver:accepted-genuine(by-the-other-verifier)" });
+      } else if open {
+        acc.out(format!("ver:open:accepted:{}:{}", VKEYS[key as usize], VSIGS[sig as usize]));
       } else {
         ctx.violation(
           &format!("{who}|not-a-signature-by-this-key-under-this-alg|accepted"),
@@ -962,12 +1095,12 @@ fn eval_ver(ctx: &Ctx, acc: &mut Acc, case: &Case, alg: u8, key: u8, sig: u8) {
     }
     Ok(Err(e)) => {
       acc.out(format!("ver:rejected:{}", e.kind()));
-      if genuine {
+      if genuine && via == 0 {
         ctx.violation(&format!("{who}|genuine-signature|rejected"), &format!("{e}"), case);
       }
     }
   }
-  acc.distinct.push(Ctx::hash_of(&(4u8, alg, key, sig)));
+  acc.distinct.push(Ctx::hash_of(&(4u8, alg, key, sig, via)));
 }
 
 // ------------------------------------------------------------------ eval / generate
@@ -988,8 +1121,8 @@ fn eval_into(ctx: &Ctx, acc: &mut Acc, case: &Case) {
         eval_mut(ctx, acc, case, t, &b, *region, *sig, *byte as usize, *xor, *with);
       }
     }
-    Case::Doc { t, pin_other, m } => eval_doc(ctx, acc, case, t, *pin_other, *m),
-    Case::Ver { alg, key, sig } => eval_ver(ctx, acc, case, *alg, *key, *sig),
+    Case::Doc { t, pin_other, m, other_method } => eval_doc(ctx, acc, case, t, *pin_other, *m, *other_method),
+    Case::Ver { alg, key, sig, via } => eval_ver(ctx, acc, case, *alg, *key, *sig, *via),
     Case::Src { t, src, pd, over, doc } => eval_src(ctx, acc, case, t, *src, *pd, *over, *doc),
   }
 }
@@ -1028,20 +1161,21 @@ fn account(ctx: &Ctx, name: &str, n: u64, mut detail: serde_json::Value) {
 }
 
 fn generate(ctx: &Ctx) {
-  ctx.rule("(a) full product of the token construction table, each token assembled and signed by the harness, decoded and verified with a recording verifier; (b) every single-bit flip (thorough: + byte substitutions) of every byte of the protected segment / payload / signature segment (compact: whole token) of every baseline token, executed with the real verifiers, also through CoreDocument::verify_jws; (c) alg x key x signature table on the concrete verifiers; (d) payload-source product alg x serialization x b64 x spelling x Pe x Pd x {signature over h.Pd, over h.Pe} with both an embedded and a detached payload, plus NEITHER, also through verify_jws. distinct_nontrivial = distinct construction rows that verified or lie outside the baseline family, distinct baseline tokens swept, distinct verifier-table rows");
+  ctx.rule("(a) full product of the token construction table, each token assembled and signed by the harness, decoded and verified with a recording verifier; (b) every single-bit flip (plus byte substitutions: quick a structural alphabet on the EdDSA/payload-#5 tokens; thorough all 255 other values on every EdDSA token in the plain spelling and the structural alphabet on the ECDSA ones) of every byte of the protected segment / payload / signature segment (compact: whole token) of every baseline token, executed with the real verifiers, also through CoreDocument::verify_jws; (c) verifier x alg x key x signature table on the two concrete library verifiers; (d) payload-source product alg x serialization x b64 x spelling x Pe x Pd x {signature over h.Pd, over h.Pe} with both an embedded and a detached payload, plus NEITHER, also through verify_jws. distinct_nontrivial = distinct construction rows that verified or lie outside the baseline family, distinct tokens swept (baseline family, and rows outside it that the library verifies), distinct verifier-table rows");
   ctx.assume("fixed-seed keys; p256/k256/iota-crypto signing in the harness is trusted to produce genuine signatures; a changed signing input or signature verifying by chance is ignored (2^-128)");
-  let all = [0u8, 1, 2, 3, 4, 5];
+  let all: Vec<u8> = (0..PAYLOADS.len() as u8).collect();
+  let aps = [0u8, 1, 2, 3, 4, 5];
   // ---- (a)
-  let mut rows: Vec<Tok> = toks(&[0], &[0, 1, 2, 3], &all, &[0, 1, 2, 3]);
+  let mut rows: Vec<Tok> = toks(&[0], &[0, 1, 2, 3], &all, &aps);
   if ctx.quick() {
-    rows.extend(toks(&[1, 2], &[0], &[0, 1], &[0, 1, 2, 3]));
+    rows.extend(toks(&[1, 2], &[0, 3], &[1, 5, 6], &aps));
   } else {
-    rows.extend(toks(&[1, 2], &[0, 1, 2, 3], &all, &[0, 1, 2, 3]));
+    rows.extend(toks(&[1, 2], &[0, 1, 2, 3], &all, &aps));
   }
   rows.retain(|t| build(t, false, None).is_some());
   let mut cases = Vec::new();
   for t in &rows {
-    for pin in 0..3u8 {
+    for pin in 0..PINS {
       for other_signer in [false, true] {
         for force_err in [false, true] {
           cases.push(Case::Rec { t: t.clone(), pin, other_signer, force_err });
@@ -1065,7 +1199,7 @@ fn generate(ctx: &Ctx) {
   let mut base: Vec<Tok>;
   if ctx.quick() {
     base = toks(&[0], &[0, 2], &all, &[0]);
-    base.extend(toks(&[1, 2], &[0], &[1], &[0]));
+    base.extend(toks(&[1, 2], &[0], &[1, 6], &[0]));
   } else {
     base = toks(&[0, 1, 2], &[0, 1, 2, 3], &all, &[0]);
   }
@@ -1073,7 +1207,15 @@ fn generate(ctx: &Ctx) {
   let tokens = std::sync::atomic::AtomicU64::new(0);
   base.par_iter().for_each(|t| {
     let mut acc = Acc::default();
-    let subst = ctx.thorough() && t.alg == 0 && t.sp == 0;
+    // thorough: every other value of every byte for the EdDSA tokens in the plain spelling (this contains every
+    // multi-bit change within one byte), the structural alphabet for the ECDSA tokens in the plain spelling
+    // quick: the structural alphabet for the EdDSA tokens in the plain spelling that carry payload #5
+    let subst: &[u8] = match (ctx.thorough(), t.sp == 0, t.alg) {
+      (true, true, 0) => &ALL_BYTES,
+      (true, true, _) => SUBST,
+      (false, true, 0) if t.pl == 5 => SUBST,
+      _ => &[],
+    };
     let n = sweep(ctx, &mut acc, t, subst);
     if n > 0 {
       tokens.fetch_add(1, std::sync::atomic::Ordering::Relaxed);
@@ -1084,7 +1226,7 @@ fn generate(ctx: &Ctx) {
   let (swept, tokens) = (swept.into_inner(), tokens.into_inner());
   ctx.sample("mutation sweep", &Case::Mut { t: base[0].clone(), region: 0, sig: 0, byte: 3, xor: 4, with: 0 });
   ctx.sample("mutation sweep", &Case::Base { t: base[base.len() / 2].clone() });
-  account(ctx, "(b) single-bit flips / byte substitutions with the real verifiers", swept, json!({"engine":"E1 full product","baseline_tokens": tokens, "mutated_tokens_verified": swept, "byte_substitutions": ctx.thorough()}));
+  account(ctx, "(b) single-bit flips / byte substitutions with the real verifiers", swept, json!({"engine":"E1 full product","baseline_tokens": tokens, "mutated_tokens_verified": swept, "byte_substitutions": ctx.by_tier("EdDSA plain spelling with payload #5: structural alphabet", "EdDSA plain spelling: all 255 other byte values; ES256/ES256K plain spelling: structural alphabet")}));
   ctx.bound("baseline_tokens_swept", tokens);
   ctx.require(tokens > 0, "no baseline token was swept");
 
@@ -1094,20 +1236,21 @@ fn generate(ctx: &Ctx) {
   for &alg in algs {
     for det in [false, true] {
       for b64m in 0..3u8 {
-        for pl in [0u8, 1, 5] {
+        for pl in [0u8, 1, 5, 6] {
           for sp in [0u8, 2] {
             let t = Tok { ser: 0, det, b64: b64m, pl, sp, ap: 0, alg };
             let kid = kid_of(alg);
             let Some(b) = build(&t, false, Some(&kid)) else { continue };
-            cases.push(Case::Doc { t: t.clone(), pin_other: false, m: None });
-            cases.push(Case::Doc { t: t.clone(), pin_other: true, m: None });
+            cases.push(Case::Doc { t: t.clone(), pin_other: false, m: None, other_method: false });
+            cases.push(Case::Doc { t: t.clone(), pin_other: true, m: None, other_method: false });
+            cases.push(Case::Doc { t: t.clone(), pin_other: false, m: None, other_method: true });
             if !b.clean || (ctx.quick() && sp != 0) {
               continue;
             }
             for (region, _, range) in regions(&t, &b) {
               for byte in range {
                 for bit in 0..8u8 {
-                  cases.push(Case::Doc { t: t.clone(), pin_other: false, m: Some((region, byte as u32, 1 << bit, 0)) });
+                  cases.push(Case::Doc { t: t.clone(), pin_other: false, m: Some((region, byte as u32, 1 << bit, 0)), other_method: false });
                 }
               }
             }
@@ -1169,7 +1312,9 @@ fn generate(ctx: &Ctx) {
   for alg in 0..VALGS.len() as u8 {
     for key in 0..VKEYS.len() as u8 {
       for sig in 0..VSIGS.len() as u8 {
-        cases.push(Case::Ver { alg, key, sig });
+        for via in 0..2u8 {
+          cases.push(Case::Ver { alg, key, sig, via });
+        }
       }
     }
   }
@@ -1177,7 +1322,8 @@ fn generate(ctx: &Ctx) {
   cases.par_iter().for_each(|c| eval(ctx, c));
   account(ctx, "(c) concrete verifier table", cases.len() as u64, json!({"engine":"E1 full product","rows": cases.len(), "algs": VALGS, "keys": VKEYS, "signatures": VSIGS}));
   ctx.bound("payloads", PAYLOADS.iter().map(|p| String::from_utf8_lossy(p).to_string()).collect::<Vec<_>>());
-  ctx.bound("substitution_alphabet_len", SUBST.len());
+  ctx.bound("substitution_alphabet_len", json!({"EdDSA plain spelling": ctx.by_tier(SUBST.len(), 255), "ES256/ES256K plain spelling": ctx.by_tier(0, SUBST.len())}));
+  ctx.bound("key_alg_pins", PINS);
 }
 
 fn main() {
